@@ -10,7 +10,8 @@ from .core import Sub, Outcome, target
 PID = 'C08'
 SHARDS = {'quick': 4, 'thorough': 16}
 RULE = ('Generated analytic families (Gaussian, Yukawa, exponential, sphere indicator) x amplitude in +-[0.1,10] x width w in [0.5,3] x '
-        'r_max in {16..40} (>= 12 w) x base resolution 10..16 points per w; each case is a refinement family dr, dr/2, dr/4 at fixed '
+        'r_max in {16..40} (>= 12 w) x base resolution 10..16 points per w x how the Domain was configured (constructed, or re-spaced / re-lengthed through '
+        'its setters after an earlier transform); each case is a refinement family dr, dr/2, dr/4 at fixed '
         'r_max (the 32 lowest k and 32 fixed r are shared by the family). Forward and backward transforms are judged separately against '
         'the closed-form 3-D pair (forward 4 pi, backward 1/(2 pi^2)): (i) error <= C*(dr/w)*scale, (ii) error ratio per halving in '
         '[0.4,0.6] (backward [0.4,0.65]), (iii) Richardson value 2X(dr/4)-X(dr/2) within C2*(dr/2w)^2*scale of exact, (iv) F(k_min) '
@@ -45,7 +46,7 @@ def spec_strategy():
     amp = st.builds(lambda s, m: s * m, st.sampled_from([-1.0, 1.0]), specs.logfloat(-1, 1, 5))
     return st.fixed_dictionaries({'family': st.sampled_from(['gauss', 'yukawa', 'exp', 'sphere']), 'A': amp,
                                   'w': specs.fl(0.5, 3.0, 4), 'rmax': st.sampled_from([16.0, 20.0, 24.0, 25.6, 32.0, 40.0, 36.0]),
-                                  'res': specs.fl(10.0, 16.0, 3)})
+                                  'res': specs.fl(10.0, 16.0, 3), 'via': st.sampled_from(['fresh', 'fresh', 'respaced', 'relengthed'])})
 
 
 class Refinement(Sub):
@@ -68,7 +69,7 @@ class Refinement(Sub):
             w = max(4, int(round(w / dr0))) * dr0     # radius on the base grid
         f, F, vol = family(name, A, w)
         h = dr0 / w
-        out.label('family=' + name)
+        out.label('family=' + name, 'domain-via=' + spec.get('via', 'fresh'))
         out.nontrivial = True
         fwd, bwd, ef, eb, exf = [], [], [], [], []
         base = np.arange(4, 4 + NK)
@@ -77,7 +78,18 @@ class Refinement(Sub):
             base = base[np.abs((base + 1) * dr0 - w) >= 0.25 * w]
         for lev in range(3):
             n = n0 * 2 ** lev
-            d = P.Domain(length=n, dr=rmax / n)
+            via = spec.get('via', 'fresh')
+            if via == 'respaced':
+                # the same grid reached through the dr setter on a Domain that has already been used for a transform
+                d = P.Domain(length=n, dr=1.7 * rmax / n)
+                d.to_real(d.to_fourier(np.ones(n)))
+                d.dr = rmax / n
+            elif via == 'relengthed':
+                d = P.Domain(length=n // 2 + 3, dr=rmax / n)
+                d.to_real(d.to_fourier(np.ones(n // 2 + 3)))
+                d.length = n
+            else:
+                d = P.Domain(length=n, dr=rmax / n)
             if len(d.r) != n or len(d.k) != n:
                 out.skipped = 'domain-grid-miscount'
                 return out
